@@ -277,5 +277,41 @@ func TestVerifE6PrecreateBadNames(t *testing.T) {
 	}
 }
 
+// audit C10: the /channels answer of a lookupd is read with io.ReadAll (internal/http_api.Client.GETV1) - no bound but
+// the HTTP client's request timeout. One lookupd streams an endless answer (cut by the harness after 24 MiB): how much
+// of it does nsqd take? The topic must still be created (with the channels the OTHER lookupd knows) and nsqd must live.
+func TestVerifE6PrecreateFlood(t *testing.T) {
+	s := vfE6New(t, 2, false)
+	defer s.close()
+	s.out = vfOpen("preflood")
+	if !s.waitPeer(s.fakes[0].addr, true) || !s.waitPeer(s.fakes[1].addr, true) {
+		t.Fatal("lookupds did not get connected")
+	}
+	s.fakes[0].setHTTPMode("flood")
+	s.fakes[1].mu.Lock()
+	s.fakes[1].extra["flood1"] = []string{"kept"}
+	s.fakes[1].mu.Unlock()
+	got, err := s.publishFirst("flood1", "first-flood1")
+	if err != nil {
+		fmt.Printf("ORACLE-FAIL key=precreate-publish publish to flood1 failed while a lookupd streams an endless answer: %v\n", err)
+		return
+	}
+	s.out.Case("prex id:fail "+vfE6AnsWord(true, true, []string{"kept"}), "{"+vfE6HexNames(got)+"}")
+	s.out.Close()
+	s.probe("flood")
+	for _, f := range s.fails {
+		fmt.Println(f)
+	}
+	s.fakes[0].mu.Lock()
+	n := s.fakes[0].flooded
+	s.fakes[0].mu.Unlock()
+	fmt.Printf("DIST flood_bytes_taken=%d of=%d\n", n, vfE6FloodMax)
+	if n >= vfE6FloodMax {
+		fmt.Printf("ORACLE-FAIL key=precreate-unbounded-http-body nsqd read all %d MiB of a lookupd's endless /channels answer into memory (io.ReadAll in internal/http_api, bounded only by the request timeout x bandwidth; the auditor measured 2.5 GB RSS in 5 s)\n", n>>20)
+	} else if len(s.fails) == 0 {
+		fmt.Printf("ORACLE-OK precreate flood: nsqd stopped reading after %d bytes\n", n)
+	}
+}
+
 var _ = bytes.Equal
 var _ = net.Dial
